@@ -122,6 +122,12 @@ def drop_tracing_macros(text, rules):
         k = start - 1
         while k >= 0 and code[k].isspace():
             k -= 1
+        if k >= 1 and code[k - 1:k + 1] == '=>':
+            # match-arm expression position: the arm evaluates to ()
+            close = match_close(code, m.end() - 1)
+            rules.hit('R1', m.group(1) + '! (match arm)')
+            text = text[:start] + '()' + text[close + 1:]
+            continue
         if k >= 0 and code[k] not in '{};':
             raise ExtractError('tracing macro not in statement position: %r' % text[start:start + 60])
         close = match_close(code, m.end() - 1)
@@ -444,6 +450,7 @@ class FnWeave:
         self.closures = {}  # k -> header
         self.rewrites = []  # (old, new)
         self.novacuity = False
+        self.opaque = False
 
 
 def weave_fn(text, w, rules, vacuity=False, name='?'):
@@ -473,6 +480,10 @@ def weave_fn(text, w, rules, vacuity=False, name='?'):
         raise ExtractError('function %s has no body' % name)
     body_open = j
     body_close = match_close(code, body_open)
+    if w.opaque:
+        text = text[:body_open] + '{ unimplemented!() }' + text[body_close + 1:]
+        code = blank_noncode(text)
+        body_close = match_close(code, body_open)
     inserts = []  # (pos, text, order)
 
     # closures first need positions; handle all as inserts/replacements on original offsets
@@ -708,6 +719,10 @@ def build_unit(unit_path, vacuity=False):
                     if d2.startswith('ret '):
                         w.ret = d2[4:].strip()
                     elif d2 == 'novacuity':
+                        w.novacuity = True
+                    elif d2 == 'body-opaque':
+                        # the function is trusted (external_body): its body is not needed and may call helpers that are not extracted
+                        w.opaque = True
                         w.novacuity = True
                     elif d2.startswith('rewrite '):
                         mm = re.match(r'rewrite\s+`(.*)`\s*=>\s*`(.*)`$', d2)
